@@ -35,7 +35,10 @@ def consumer_all_orders():
     for name, resp_state, reports in scenarios:
         n = len(reports)
         for pos in range(n + 1):            # reports keep emission order; the response is interleaved anywhere
-            for other_tid_noise in (False, True):
+            # reports of other consumers' transactions arrive on the same subscription; every own report delivered
+            # before the response is followed by a burst of foreign report parts (the consumer keeps a bounded history
+            # of 50 early reports - a burst stays well below that)
+            for other_tid_noise in (0, 1, 6, 14):
                 cases += 1
                 mgr = _manager()
                 tid = 7
@@ -46,6 +49,8 @@ def consumer_all_orders():
                         # reports that arrive before the response are delivered while the POST is in flight
                         for st in reports[:pos]:
                             deliver(st)
+                            for j in range(other_tid_noise):
+                                deliver(S.FINISHED, t=1000 + j)
                         return types.SimpleNamespace(p_msg=types.SimpleNamespace(msg_node=('resp', tid, resp_state)))
 
                 def deliver(state, t=None):
@@ -214,7 +219,7 @@ def full_queue():
 if __name__ == '__main__':
     c = Collector()
     c.run('C09.consumer_all_orders', 'F', consumer_all_orders,
-          bound='every serial order (response interleaved at each position) of the response and the 1-3 reports of a transaction, x 4 final states x direct/queued x foreign-transaction noise')
+          bound='every serial order (response interleaved at each position) of the response and the 1-3 reports of a transaction, x 4 final states x direct/queued x bursts of 0/1/6/14 foreign report parts (at most 45 entries in the history of 50) after each early report')
     c.run('C09.provider_transaction_ids', 'B', provider_transaction_ids, bound='8 threads x 2000 ids')
     c.run('C09.provider_sequences', 'B', provider_sequences, bound='direct/queued x handler returns Fin/Fail/FinMod or raises, on the real registry and worker thread')
     c.run('C09.full_queue', 'B', full_queue, bound='one request against a full worker queue (10 entries), 4 s limit')
